@@ -354,6 +354,9 @@ package zygo
 //@ C14 ensures counts: r0 == nil ==> (hash.NumKeys == old(hash.NumKeys) || hash.NumKeys == old(hash.NumKeys) - 1)
 //@ |  && hash.NumKeys - old(hash.NumKeys) == bucketLen(hash, hashOf(key)) - old(bucketLen(hash, hashOf(key)))
 //@ C14 ensures removed: r0 == nil && !old(absent(hash, key)) ==> hash.NumKeys == old(hash.NumKeys) - 1
+// a bucket that loses its last entry leaves the map: printing (and the typed-record
+// printers) decide "is anything in here" by len(hash.Map)
+//@ C14 ensures no-empty-bucket-left-behind: r0 == nil && !old(absent(hash, key)) ==> !has(hash.Map, hashOf(key)) || len(hash.Map[hashOf(key)]) > 0
 //@ C14 ensures order-shrinks: r0 == nil && !old(absent(hash, key)) && old(exists(j, 0 <= j && j < len(hash.KeyOrder) && keq(hash.KeyOrder[j], key))) ==> len(hash.KeyOrder) == old(len(hash.KeyOrder)) - 1
 //@ C14 ensures order-bounded: len(hash.KeyOrder) <= old(len(hash.KeyOrder)) && len(hash.KeyOrder) >= old(len(hash.KeyOrder)) - 1
 //@ C14 ensures order-kept: hash.NumKeys == old(hash.NumKeys) ==> hash.KeyOrder == old(hash.KeyOrder) && sameOrder(hash)
